@@ -697,6 +697,10 @@ def run(ctx: Ctx) -> None:
                         "reported as an error, not answered with None")
     n18 = load_checks_presence(ctx, "C09.R18")
     rep.floor("C09.R18", n18, 1)
+    rep.rule("C09.R21", "a path given by name is resolved in the module namespace only when the name is not a parameter / local variable of the analysed function (which may shadow the "
+                        "module variable): the store-path resolver refuses such a name, and the call-site inspectors hand over the local names")
+    n21 = local_paths_refused(ctx, "C09.R21")
+    rep.floor("C09.R21", n21, 5)
     from .common import collected_is_used
     rep.rule("C09.R20", "what the analysis collects it hands on: the interactions found in the methods of a class, in the sub-calls and in the loads of a function are part of the record "
                         "the inspector returns (a local collection that is filled is also read)")
@@ -749,3 +753,51 @@ def _direct_body(n: ast.If):
         for x in ast.walk(st):
             out.append(x)
     return out
+
+
+def local_paths_refused(ctx: Ctx, rule: str) -> int:
+    """The analysis resolves a path given by NAME (`dds.load(P)`, `dds.keep(P, f)`) in the module's namespace.  A parameter or a local variable of the
+    function being analysed may shadow that name: the resolver of store paths is told the function's local names and refuses a name among them,
+    and every call-site inspector that knows the local names hands them over."""
+    rep = ctx.report
+    prog = ctx.prog
+    res = prog.func("dds.introspect.InspectFunction._retrieve_store_path")
+    if res is None:
+        raise AnchorError("role store-path resolver (dds.introspect.InspectFunction._retrieve_store_path) not found")
+    a = res.node.args
+    ann = {x.arg: (unparse(x.annotation, 100) if x.annotation is not None else "") for x in a.posonlyargs + a.args + a.kwonlyargs}
+    locals_params = [p for p, t in ann.items() if "LocalVar" in t]
+    n = 1
+    desc = "the store-path resolver refuses a path name that is a parameter / local variable of the analysed function"
+    cfg = cfg_of(res)
+    guard = []
+    for b in cfg.nodes:
+        if b.kind == "branch" and b.label == "T" and isinstance(b.ast, (ast.Compare, ast.BoolOp)):
+            for c_ in ast.walk(b.ast):
+                if isinstance(c_, ast.Compare) and len(c_.ops) == 1 and isinstance(c_.ops[0], ast.In) and isinstance(c_.comparators[0], ast.Name) and c_.comparators[0].id in locals_params:
+                    guard.append(b)
+    raises = [r for r in res.own_nodes() if isinstance(r, ast.Raise)]
+    refused = [r for r in raises if guard and dominated(ctx, res, r, guard) is None]
+    if locals_params and refused:
+        rep.ok(rule, res.qname, desc, res.loc(refused[0]))
+    else:
+        rep.bad(rule, res.qname, desc, res.loc(), [f"{res.loc()}: " + ("no parameter carries the local names of the analysed function" if not locals_params else
+                f"no raise under `<name> in {locals_params[0]}`"),
+                "`P = '/p'` in the module and `def reader(): P = '/other'; return dds.load(P)`: the analysis tracks '/p', the run loads '/other': the reader is not evaluated again when "
+                "'/other' changes"], "local-path-name", what="a path given by a local variable is resolved in the module namespace (a shadowed module variable is tracked instead)")
+    for f in prog.funcs.values():
+        if f.module.name not in ("dds.introspect", "dds._introspect_indirect"):
+            continue
+        fa = f.node.args
+        f_locals = [x.arg for x in fa.posonlyargs + fa.args + fa.kwonlyargs if x.annotation is not None and "LocalVar" in unparse(x.annotation, 100)]
+        for c in f.own_nodes():
+            if isinstance(c, ast.Call) and isinstance(c.func, ast.Attribute) and c.func.attr == res.name and f_locals:
+                n += 1
+                passed = [x for x in list(c.args) + [k.value for k in c.keywords] if isinstance(x, ast.Name) and x.id in f_locals]
+                d2 = f"{f.name}: the local names are handed to the store-path resolver"
+                if passed:
+                    rep.ok(rule, f.qname, d2, f.loc(c))
+                else:
+                    rep.bad(rule, f.qname, d2, f.loc(c), [f"{f.loc(c)}: `{unparse(c, 80)}` does not pass `{f_locals[0]}`"], stmt_key(c),
+                            what="a call-site inspector resolves a path name without telling the resolver the function's local names")
+    return n
